@@ -146,19 +146,20 @@ func c40() {
 		ops = append(ops, c40Op{"Put", s}, c40Op{"Prune", s})
 	}
 	run.Bounds["sequence_alphabet"] = fmt.Sprint(ops)
-	var rec func(prefix []c40Op)
-	rec = func(prefix []c40Op) {
-		if len(prefix) > 0 {
-			c40History(run, prefix, qs, len(prefix) <= 3)
+	// shortest histories first, so that a reported case is minimal
+	for d := 1; d <= depth; d++ {
+		var rec func(prefix []c40Op)
+		rec = func(prefix []c40Op) {
+			if len(prefix) == d {
+				c40History(run, prefix, qs, d <= 3)
+				return
+			}
+			for _, o := range ops {
+				rec(append(append([]c40Op{}, prefix...), o))
+			}
 		}
-		if len(prefix) == depth {
-			return
-		}
-		for _, o := range ops {
-			rec(append(append([]c40Op{}, prefix...), o))
-		}
+		rec(nil)
 	}
-	rec(nil)
 	run.Assumptions = []string{
 		"'the pruned point' = the smallest retained starting round after Prune (Prune is inclusive of its argument); the invariance claim is checked for every query whose looked-up (offset) round is at or after it",
 		"GetPrevMagicBlock is compared with 'the entry just before the floor entry, else Chain.PreviousMagicBlock'",
@@ -185,7 +186,13 @@ func c40History(run *ev.Run, hist []c40Op, qs []int64, withChain bool) {
 	model := &c40Model{set: map[int64]bool{}}
 	ent := func(r int64) string { return fmt.Sprintf("mb@%d", r) }
 	replay := map[string]any{"history": fmt.Sprint(hist)}
+	// staleMax: the greatest round ever stored has been pruned and something older is stored now
+	// (one defect class of its own: every symptom it causes is reported under one key)
+	staleMax := false
 	bad := func(key, msg string) {
+		if staleMax {
+			key = "roundStartingStorage:stale-max-after-pruning-the-newest-entry"
+		}
 		run.Violation("C40:"+key, fmt.Sprintf("history %v: %s", hist, msg), replay)
 	}
 
@@ -250,6 +257,13 @@ func c40History(run *ev.Run, hist []c40Op, qs []int64, withChain bool) {
 	}
 	retained := model.sorted()
 	run.Add(1, 0, 0)
+	maxEver := int64(-1)
+	for _, o := range hist {
+		if o.Kind == "Put" && o.R > maxEver {
+			maxEver = o.R
+		}
+	}
+	staleMax = len(retained) > 0 && retained[len(retained)-1] < maxEver
 
 	// structure
 	if got := store.GetRounds(); fmt.Sprint(got) != fmt.Sprint(retained) {
